@@ -81,7 +81,9 @@ def cases(tier, rng):
     for (l, p, v, m, s, i, f) in cells(tier, rng):
         raw = cell_stream(l, p, v, m, s, i, f)
         idopt = " id=%s" % W.tok(i) if i else ""
-        out.append("g%d sock %s / attach a X raw=%s%s / %s / dropped a" % (k, l, W.tok(raw), idopt, PROBE[l]))
+        # the cell's parameters travel in the case id, for the reference verdict of the oracle
+        cid = "g%d_%s_%d.%d_%s_%s_%s_%s" % (k, p, v[0], v[1], m.decode(), s, "none" if i is None else str(len(i)), f)
+        out.append("%s sock %s / attach a X raw=%s%s / %s / dropped a" % (cid, l, W.tok(raw), idopt, PROBE[l]))
         k += 1
     # admission is independent of segmentation (C02 hand-over) and needs no EOF
     for l in LOCALS:
@@ -155,6 +157,28 @@ def judge(line, impl_obs, orc):
     local = sp[2]
     toks = impl_obs.split()
     verdict = toks[0][6:] if toks and toks[0].startswith("att:a=") else "?"
+    if sp[0].startswith("g") and "_" in sp[0]:
+        # reference reading of the property text: admitted iff signature ok, version >= 3.0, known mechanism,
+        # first item a READY whose Socket-Type is known and RFC-compatible, Identity (if any) <= 255 bytes;
+        # registered under the announced identity, else a fresh one
+        _, pt, ver, mech, sig, idl, first = sp[0].split("_")
+        major, minor = (int(x) for x in ver.split("."))
+        valid = (sig == "ok" and (major, minor) >= (3, 0) and mech in ("NULL", "PLAIN", "CURVE") and first == "ready"
+                 and (local, pt) in COMPAT and (idl == "none" or int(idl) <= 255))
+        if valid != verdict.startswith("ok"):
+            return "peer (%s -> %s, version %s, mechanism %s, signature %s, identity %s bytes, first item %s) should be %s but was %s" % (
+                pt, local, ver, mech, sig, idl, first, "admitted" if valid else "rejected", verdict)
+        if valid:
+            announced = idl not in ("none", "0")
+            raw = [t for t in sp if t.startswith("id=")]
+            want = ("ok:" + raw[0][3:].replace("r1.", "").lower()) if announced and raw else "ok:auto"
+            got = verdict
+            if announced:
+                idhex = W.untok(raw[0][3:]).hex()
+                if got != "ok:" + idhex:
+                    return "admitted peer announced a %s-byte identity but was registered as %s" % (idl, got[:40])
+            elif got != "ok:auto":
+                return "admitted peer announced no identity but was registered as %s" % got[:40]
     if verdict.startswith("ok"):
         exp = expected_probe(local, verdict, None)
         got = toks[1:]
